@@ -43,6 +43,7 @@ def scenarios(rep, tier, seed):
             scn["pass_I"] = True
             scn["id_offset"] = 1 + i % 5
         scns.append(scn)
+    scns += S.extreme_unit_scenarios(random.Random(seed * 1000003 + 1515), 120 if thorough else 30, kind="semi", nq=2, nu=3)
     return scns
 
 
